@@ -87,6 +87,10 @@ def main():
         if w.get('cls') == '__primitives__':
             primitives()
             continue
+        if w.get('cls') == '__logging_off__':
+            import logging
+            logging.disable(logging.CRITICAL)      # an application that silences the library's logging before it optimises
+            continue
         try:
             run(w['cls'], w['mod'], w.get('hp'), w.get('n_agents', 3), w.get('n_vars', 2), w.get('n_iter', 2), w.get('seed', 99),
                 w.get('kind', 'search'), w.get('box', (-5.0, 5.0)), w.get('objective', 'plain'))
